@@ -34,7 +34,8 @@ BADVAL_LETTERS = ["CERbadip", "CERbadapp", "DWRbad", "DPRbad", "REQbadval"]
 EXH_LETTERS = REQ_LETTERS + ANS_LETTERS + APP_LETTERS + LATE
 REQ_LETTERS = REQ_LETTERS + BADVAL_LETTERS
 LETTERS = EXH_LETTERS + BADVAL_LETTERS
-STARTS = ["in-ready", "in-connected", "out-await-cea", "out-ready", "in-waiting-dwa", "in-disconnecting"]
+STARTS = ["in-ready", "in-connected", "out-await-cea", "out-ready", "in-waiting-dwa", "in-disconnecting",
+          "in-ready-same-peer"]     # the last: every connection of the case belongs to one and the same peer
 BEHAVIOURS = ["answer", "defer", "raise", "threading-answer", "threading-raise", "threading-none", "answer_norc"]
 
 
@@ -78,7 +79,8 @@ class Case:
         beh = behaviour.split("-")[-1]
         out = start.startswith("out")
         peers = []
-        for i in range(nconn):
+        same = start.endswith("same-peer")
+        for i in range(1 if same else nconn):
             pc = {"name": f"peer{i + 1}.verif.example", "timers": {"idle_timeout": 10}}
             if out and i == 0:
                 pc.update(persistent=True, reconnect_wait=10 ** 7)
@@ -93,6 +95,9 @@ class Case:
         self.app.answer_raises = True      # an unexpected answer makes the application's handler fail
         self.app_requests = []
         self.conns = [Conn(self, i, "out" if (out and i == 0) else "in") for i in range(nconn)]
+        if same:
+            for c in self.conns:
+                c.name = "peer1.verif.example"
         self.trace = []
         self.matched = 0
         self.submitted = []
@@ -369,6 +374,8 @@ DIRECTED = [
     ("in-ready", "answer", ["CERbadip", "DWRbad", "DPRbad", "REQbadval"]),
     ("out-ready", "threading-answer", ["REQbadval", "DWRbad", "CERbadapp", "DPRbad"]),
     ("in-waiting-dwa", "answer", ["DWRbad", "REQbadval", "DPRbad"]),
+    ("in-ready-same-peer", "defer", [(0, "REQ"), (0, "DPR"), (0, "SUB"), (1, "DWR"), (1, "REQ"), (1, "SUB")]),
+    ("in-ready-same-peer", "defer", [(1, "REQ"), (1, "DPR"), (1, "SUB"), (0, "DWR")]),
     ("in-ready", "answer", ["DWR~h0", "DWR~e0", "REQ~h0", "REQ~e0", "REQmiss~h0", "REQapp~e0", "DPR~h0"]),
     ("in-connected", "answer", ["CER~h0", "REQ~e0"]),
     ("in-connected", "answer", ["CER~e0", "DWR~h0"]),
@@ -382,7 +389,7 @@ def run_shard(spec):
     if spec["kind"] == "exhaustive" and spec["part"] == 0:
         for s, b, script in DIRECTED:
             for nconn in (1, 2):
-                run.one(s, b, [(0, l) for l in script], nconn)
+                run.one(s, b, [l if isinstance(l, tuple) else (0, l) for l in script], nconn)
     if spec["kind"] == "exhaustive":
         i = 0
         for d in range(1, spec["depth"] + 1):
